@@ -304,11 +304,24 @@ UnrollCase(x) ==
       fin == Final(p, r0, "ramp", 2048, 64)
   IN CaseRec("Unroll", p, r0, "ramp", 2048, fin, {"t0", "t2", "t3"}, {}, Tags(p, fin), [first |-> first, n |-> n])
 
-Cases == CASE Family = "Shadow" -> ShadowCases [] Family = "Repo" -> RepoCases [] Family = "Unroll" -> UnrollCases [] Family = "Call" -> CallCases [] Family = "LineFill" -> LineFillCases
+(* ------------------------------ Misaligned (C12) ---------------------------- *)
+(* accesses that are not naturally aligned but stay inside one cache line: the        *)
+(* simulator executes them byte-wise; the cycle ledgers of MVP-1..3 charge them as one *)
+(* access                                                                              *)
+MisCases == { <<op, off, k>> : op \in {"lw", "lh", "sw", "sh"}, off \in {1, 2, 3, 5, 7}, k \in {0, 1} }
+MisCase(x) ==
+  LET acc == CASE x[1] = "lw" -> Lw("t0", "a0", x[2]) [] x[1] = "lh" -> Lh("t0", "a0", x[2])
+               [] x[1] = "sw" -> Sw("t1", "a0", x[2]) [] x[1] = "sh" -> Sh("t1", "a0", x[2])
+      p == IF x[3] = 0 THEN <<acc, AddI("t2", "t0", "t1"), Nop>> ELSE <<Lw("t3", "a0", 8), acc, Lw("t2", "a0", 4), Ret>>
+      r0 == Regs0(64, 128, 0, 287454020, 0, 0)
+      fin == Final(p, r0, "ramp", 256, 64)
+  IN CaseRec("Misaligned", p, r0, "ramp", 256, fin, {"t0", "t2"}, 64 .. 75, Tags(p, fin), [op |-> x[1], off |-> x[2]])
+
+Cases == CASE Family = "Shadow" -> ShadowCases [] Family = "Misaligned" -> MisCases [] Family = "Repo" -> RepoCases [] Family = "Unroll" -> UnrollCases [] Family = "Call" -> CallCases [] Family = "LineFill" -> LineFillCases
            [] Family = "RegDep" -> RegDepCases [] Family = "Tail" -> TailCases
            [] Family = "MemDep" -> MemDepCases [] Family = "MemWalk" -> WalkCases [] Family = "Err" -> ErrCases
            [] Family = "Timing" -> TimingCases
-MkCase(x) == CASE Family = "Shadow" -> ShadowCase(x) [] Family = "Repo" -> RepoCase(x) [] Family = "Unroll" -> UnrollCase(x) [] Family = "Call" -> CallCase(x) [] Family = "LineFill" -> LineFillCase(x) [] Family = "RegDep" -> RegDepCase(x) [] Family = "Tail" -> TailCase(x)
+MkCase(x) == CASE Family = "Shadow" -> ShadowCase(x) [] Family = "Misaligned" -> MisCase(x) [] Family = "Repo" -> RepoCase(x) [] Family = "Unroll" -> UnrollCase(x) [] Family = "Call" -> CallCase(x) [] Family = "LineFill" -> LineFillCase(x) [] Family = "RegDep" -> RegDepCase(x) [] Family = "Tail" -> TailCase(x)
                [] Family = "MemDep" -> MemDepCase(x) [] Family = "MemWalk" -> WalkCase(x) [] Family = "Err" -> ErrCase(x)
                [] Family = "Timing" -> TimingCase(x)
 
@@ -318,7 +331,7 @@ Parts == IF Family = "MemWalk" THEN Mixes \X {1, 2, 4}
 Init == phase = "gen" /\ c \in {[fam |-> "none", part |-> p] : p \in Parts}
 Next == /\ phase = "gen" /\ phase' = "done"
         /\ \E x \in Cases : (Family = "MemWalk" => <<x[1], x[2]>> = c.part)
-                             /\ (Family = "Repo" => <<x[1], x[2] % 3>> = c.part) /\ LET k == MkCase(x) IN k.exp.status \in {"ret", "end", "err"} /\ c' = k
+                             /\ (Family = "Repo" => <<x[1], x[2] % 3>> = c.part) /\ LET k == MkCase(x) IN (k.misal => Family = "Misaligned") /\ k.exp.status \in {"ret", "end", "err"} /\ c' = k
 Spec == Init /\ [][Next]_vars
 Emit == phase = "done" => PrintT(ToJson(c))
 =======================================================================
